@@ -54,6 +54,18 @@ pub fn compute(world: &World, trace: &[Rec], v: &Violation) -> Vec<String> {
             tags.push("cells:downstream-of-array-cycle".into());
         }
     }
+    // values downstream of a dynamic array
+    let dyn_units: HashSet<usize> = units.iter().enumerate().filter(|(_, u)| u.is_dynamic).map(|(i, _)| i).collect();
+    if !dyn_units.is_empty() && !v.cells.is_empty() && v.facets.iter().all(|f| f.starts_with("cell.")) {
+        let down = deps::downstream(&units, &dyn_units);
+        let all_down = v.cells.iter().all(|at| match deps::parse_at(at) {
+            Some((s, r, c)) => deps::unit_at(&units, s, r, c).map(|u| down.contains(&u)).unwrap_or(false),
+            None => false,
+        });
+        if all_down {
+            tags.push("cells:downstream-of-dynamic-array".into());
+        }
+    }
     // any cell currently showing #SPILL! (dynamic arrays competing for cells)
     let mut spill_err = false;
     for ws in &model.workbook.worksheets {
@@ -67,6 +79,49 @@ pub fn compute(world: &World, trace: &[Rec], v: &Violation) -> Vec<String> {
     }
     if spill_err {
         tags.push("state:has-spill-error".into());
+    }
+    // a CSE array formula spanning more than one cell
+    let mut cse_block = false;
+    let mut ref_in_range = false;
+    for (si, ws) in model.workbook.worksheets.iter().enumerate() {
+        for (r, row) in &ws.sheet_data {
+            for (c, cell) in row {
+                if let ironcalc_base::types::Cell::ArrayFormula { kind: ironcalc_base::types::ArrayKind::Cse, r: (bw, bh), .. } = cell {
+                    if *bw > 1 || *bh > 1 {
+                        cse_block = true;
+                    }
+                }
+                if matches!(cell, ironcalc_base::types::Cell::CellFormula { .. } | ironcalc_base::types::Cell::ArrayFormula { .. }) {
+                    if let Ok(t) = model.get_localized_cell_content(si as u32, *r, *c) {
+                        // an error literal as an end point of a range: E6:#REF!, #REF!:H9
+                        if t.contains(":#") || t.contains("!:") || t.contains("?:") {
+                            ref_in_range = true;
+                        }
+                    }
+                }
+            }
+        }
+    }
+    for l in &v.diff {
+        for t in [&l.expected, &l.actual] {
+            if l.facet == "cell.content" && (t.contains(":#") || t.contains("!:") || t.contains("?:")) {
+                ref_in_range = true;
+            }
+        }
+    }
+    if cse_block {
+        tags.push("state:has-cse-block".into());
+    }
+    if ref_in_range {
+        tags.push("state:error-as-range-end".into());
+    }
+    // coordinates at the edge of the grid anywhere in the trace (cells, references)
+    let edge = trace.iter().any(|r| {
+        let js = serde_json::to_string(&r.ev).unwrap_or_default();
+        js.contains("10485") || js.contains("1638") || js.contains("XF")
+    });
+    if edge {
+        tags.push("trace:grid-edge".into());
     }
     // undo of a deletion: are all differences outside the band that was deleted and re-inserted?
     if let Some(rec) = trace.get(v.culprit_event) {
